@@ -317,9 +317,13 @@ fn designated_set(m: &Model, op: &Op) -> RangeSet {
 /// For ops with a single unconditional designated range: does the header claim a range
 /// that ends beyond the stream (or overflows)?
 fn oversized_claim(m: &Model, op: &Op) -> bool {
-    let beyond = |off: u64, size: u64| match off.checked_add(size) {
-        None => true,
-        Some(end) => end > m.len,
+    // an empty range is not an oversized request, wherever it points
+    let beyond = |off: u64, size: u64| {
+        size > 0
+            && match off.checked_add(size) {
+                None => true,
+                Some(end) => end > m.len,
+            }
     };
     match op {
         Op::SectionData(s) => s.typ != hdr::SHT_NOBITS && beyond(s.offset, s.size),
@@ -398,7 +402,7 @@ pub fn check_c08(sc: &Scenario, r: &EquivRun, facts: &mut RunFacts) -> Option<Vi
         facts.alloc_calls += st.alloc.count;
         if len > 0 {
             let milli = (st.alloc.max as u64).saturating_mul(1000) / len.max(1);
-            if st.alloc.max as u64 > 8192 && milli > facts.max_alloc_over_len_milli {
+            if st.alloc.max as u64 > ALLOC_SLACK && milli > facts.max_alloc_over_len_milli {
                 facts.max_alloc_over_len_milli = milli;
             }
         }
@@ -408,7 +412,7 @@ pub fn check_c08(sc: &Scenario, r: &EquivRun, facts: &mut RunFacts) -> Option<Vi
                 op.name(),
                 st.id,
                 format!(
-                    "single allocation of {} bytes on a {}-byte stream (bound 4*len+8192 = {})",
+                    "single allocation of {} bytes on a {}-byte stream (bound 4*len+16384 = {})",
                     st.alloc.over_first,
                     len,
                     alloc_bound(len)
